@@ -217,14 +217,18 @@ ConsumeWhy(c, o) ==
 (*    wkind  "writer" | "writecloser" | "nil"                              *)
 (*  outcome o = [err, out, wcloses, scloses, panic]                        *)
 (***************************************************************************)
+\* byte ARRAYS ([0]byte, [16]byte by value, boxed or by pointer) are not in the documented list: an error, never a panic
+ArraySrc == {"array0", "array16", "parray16"}
 \* "seekreader": a *bytes.Reader the caller has already read a preamble from - the source bytes are the REST
 BytesSrc == {"writerto", "wtreader", "wtreadcloser", "reader", "readcloser", "seekreader", "binm", "error",
              "bytes", "string", "pbytes", "pstring", "nbytes", "nstring", "struct", "pstruct", "strslice",
-             "nilpstring", "nilpbytes", "nilpstruct", "nil", "int", "map", "pint"}
-BytesSrcSupported == BytesSrc \ {"nilpstring", "nilpbytes", "nilpstruct", "nil", "int", "map", "pint"}
-TextSrc == {"textm", "error", "stringer", "string", "pstring", "nstring", "struct", "pstruct", "strslice", "bytes",
-            "nilpstring", "nilpstruct", "nil", "int", "map"}
-TextSrcSupported == TextSrc \ {"nilpstring", "nilpstruct", "nil", "int", "map"}
+             "nilpstring", "nilpbytes", "nilpstruct", "nil", "int", "map", "pint"} \cup ArraySrc
+BytesSrcSupported == BytesSrc \ ({"nilpstring", "nilpbytes", "nilpstruct", "nil", "int", "map", "pint"} \cup ArraySrc)
+\* "dualtm": a payload that is BOTH an encoding.TextMarshaler and a fmt.Stringer with different renderings
+\* (time.Time-like): its text is what MarshalText returns (that is what UnmarshalText reads back)
+TextSrc == {"textm", "dualtm", "error", "stringer", "string", "pstring", "nstring", "struct", "pstruct", "strslice", "bytes",
+            "nilpstring", "nilpstruct", "nil", "int", "map"} \cup ArraySrc
+TextSrcSupported == TextSrc \ ({"nilpstring", "nilpstruct", "nil", "int", "map"} \cup ArraySrc)
 StreamSrc == {"writerto", "wtreader", "wtreadcloser", "reader", "readcloser"}
 ClosableSrc == {"wtreadcloser", "readcloser"}
 
@@ -247,16 +251,16 @@ BSProduce(p) ==
          [] p.src = "binm" -> IF p.merr THEN POut("merr", <<>>, wcl, scl, FALSE) ELSE WriteOnce(p, wcl, scl)
          [] p.src \in {"nilpstring", "nilpbytes", "nilpstruct"} ->             \* reflect.Indirect(nil ptr).Type()
               IF GuardTypedNil THEN POut("other", <<>>, wcl, scl, FALSE) ELSE POut("none", <<>>, 0, 0, TRUE)
-         [] p.src \in {"int", "map", "pint"} -> POut("other", <<>>, wcl, scl, FALSE)
+         [] p.src \in {"int", "map", "pint"} \cup ArraySrc -> POut("other", <<>>, wcl, scl, FALSE)   \* kind Array: not supported
          [] OTHER -> WriteOnce(p, wcl, scl)                                    \* error, []byte, string, struct/slice as JSON
 
 TextProduce(p) ==
   IF p.wkind = "nil" THEN POut("other", <<>>, 0, 0, FALSE)
   ELSE IF p.src = "nil" THEN POut("other", <<>>, 0, 0, FALSE)
-  ELSE CASE p.src = "textm" -> IF p.merr THEN POut("merr", <<>>, 0, 0, FALSE) ELSE WriteOnce(p, 0, 0)
+  ELSE CASE p.src \in {"textm", "dualtm"} -> IF p.merr THEN POut("merr", <<>>, 0, 0, FALSE) ELSE WriteOnce(p, 0, 0)
          [] p.src \in {"nilpstring", "nilpstruct"} ->
               IF GuardTypedNil THEN POut("other", <<>>, 0, 0, FALSE) ELSE POut("none", <<>>, 0, 0, TRUE)
-         [] p.src \in {"int", "map"} -> POut("other", <<>>, 0, 0, FALSE)
+         [] p.src \in {"int", "map"} \cup ArraySrc -> POut("other", <<>>, 0, 0, FALSE)
          [] OTHER -> WriteOnce(p, 0, 0)
 
 Produce(p) == IF p.codec = "bytes" THEN BSProduce(p) ELSE TextProduce(p)
@@ -266,7 +270,7 @@ SrcSupported(p) == IF p.codec = "bytes" THEN p.src \in BytesSrcSupported ELSE p.
 
 ProduceFault(p) ==
   \/ p.src \in StreamSrc /\ p.term = "err"                                    \* the source stream fails
-  \/ p.src \in {"binm", "textm"} /\ p.merr                                    \* the marshaler fails
+  \/ p.src \in {"binm", "textm", "dualtm"} /\ p.merr                                    \* the marshaler fails
   \/ p.wacc # -1 /\ p.wacc < p.content.n                                      \* write error
 
 ProduceAllowed(p, o) ==
